@@ -375,15 +375,16 @@ PROPS["C18"] = _tx("C18", ["C18_receiver_initial", "C18_receiver_oneway", "C18_c
     " 'up to its limits' (termination of the closure wait by the ACK/inactivity limits) is C03's.")
 
 PROPS["C08"] = _tx("C08", ["C08_queue_initial", "C08_queue_invariant", "C08_requests_inside_scope", "C08_nak_fits",
-                           "C08_exactly_what_is_missing", "C08_deferred_no_unsolicited_nak"], ["recv", "segments"],
+                           "C08_exactly_what_is_missing", "C08_deferred_no_unsolicited_nak", "C08_immediate_gap_requested"], ["recv", "segments"],
     "Proof on the receive-transaction model (acknowledged mode), for every operation sequence: the NAK queue holds only "
     "non-empty ranges and the 0-0 marker (the marker only while metadata is missing); every request of a NAK PDU lies inside "
     "its scope and the PDU fits segment size + 1; after EOF the computed list is exactly the complement of the held bytes in "
     "[0, file size) plus the metadata marker (via C09); under the deferred procedure nothing is queued and no NAK is emitted "
     "before EOF unless prompted. Lock-step correspondence with the real RecvTransaction and an oracle on every emitted NAK "
     "(well-formedness, scope, size, file bound, deferred rule, exactness of the post-EOF NAK batch).",
-    " The immediate-procedure clause ('a newly detected gap is requested at the next opportunity or after the delay if it "
-    "persists') is covered by the model's branch structure and the lock-step stream, not by a separate theorem; 'inside the "
+    " The immediate-procedure clause: detection IS a theorem (C08_immediate_gap_requested: the gap revealed by data beyond the "
+    "previous end is queued at once with zero delay, put under a delay timer otherwise); 'requested after the delay if it "
+    "persists' (ht_delayed) is covered by the model's branch structure and the lock-step stream only; 'inside the "
     "file' for requests queued before EOF holds when the peer sent no data beyond the EOF size (else FilesizeError).")
 
 PROPS["C01"] = _tx("C01", ["C01_staged_file_is_source", "C01_store_is_stage_step", "C01_delivered_file_is_staged_file",
